@@ -17,7 +17,7 @@ model cannot take (with what the model saw up to that event).
 Input lines
 ```
 RUN <id> threads=<n> warm0=<0|1> warm1=<0|1>      cache 0 = double (`fft_cache_ccrw`), cache 1 = float (`fft_cache_ccrw_f`)
-E <tid> <cache> <want|got|rel|init|yield> <name> <arg> <FFT_LEN> <readcount> <writecount> <tab> <m1> <m2> <m3> <w> <r>
+E <tid> <cache> <want|got|rel|init|yield|use> <name> <arg> <FFT_LEN> <readcount> <writecount> <tab> <m1> <m2> <m3> <w> <r>
 V <tid> <begin|passed|filled|end|leave>          variable-rate jobs: vr_init's table initialiser
 END
 CLIPS <t0> <c1> <c2> …                            atomic clip-counter model run to completion
@@ -27,7 +27,7 @@ namespace Soxr.Conc.Driver
 open Soxr.Conc
 
 inductive Ev where
-  | want (l : Lock) | got (l : Lock) | rel (l : Lock) | ini (l : Lock) | yld (tag : String)
+  | want (l : Lock) | got (l : Lock) | rel (l : Lock) | ini (l : Lock) | yld (tag : String) | use
   deriving Repr
 
 /-- the yield point (a no-op for the model) that sits at a program point -/
@@ -51,6 +51,7 @@ def visibleAt (labels : List Label) (pc : Pc) : Ev → Option (Option Label)
   | .got L => (visLabel labels pc (.p L)).map some
   | .rel L => (visLabel labels pc (.v L)).map some
   | .ini L => (visLabel labels pc (.ini L)).map some
+  | .use => (visLabel labels pc .use).map some
 
 /-- the invisible transitions that lead from `pc` to a point where the event is visible.  A point that carries a yield point
     cannot be passed silently (the real code always reports the yield there), which makes the explanation unique. -/
@@ -171,8 +172,12 @@ def stepEvent (c : Cache) (tid : Nat) (ev : Ev) (arg : Int) (o : Obs) (evNo : Na
   let isRebuildBegin := match ev with | .yld "rebuild-begin" => true | _ => false
   let len := if isRebuildBegin then arg else c.lens[tid]!
   let labels := allLabels len c.zs[tid]!
+  let isUse := match ev with | .use => true | _ => false
   let some path := tauPath labels 5 pc ev
-    | throw s!"thread {tid} is at {showPc pc} in the model, where the event cannot happen (neither directly nor after invisible steps)"
+    | throw (if isUse then
+        s!"TABLE-USE-OUTSIDE-LOCK: thread {tid} dereferences the shared tables while it is at {showPc pc} in the model: it holds neither " ++
+        "the reader role nor the writer role of this cache (no transition of the model is a table use there)"
+      else s!"thread {tid} is at {showPc pc} in the model, where the event cannot happen (neither directly nor after invisible steps)")
   let mut c := c
   if isRebuildBegin then c := { c with lens := c.lens.set! tid arg }
   let mut cur := pc
@@ -252,6 +257,7 @@ def parseEv (kind name : String) : Option Ev :=
   | "got" => (lockOf name).map .got
   | "rel" => (lockOf name).map .rel
   | "init" => (lockOf name).map .ini
+  | "use" => some .use
   | _ => none
 
 def handleLine (cur : Option Run) (line : String) : Option Run × Option String :=
